@@ -15,6 +15,8 @@ pub mod registration;
 // Scheduler / link selection. Core logic (mutually dependent with `connection`).
 pub mod selection;
 pub mod utils;
+#[cfg(feature = "verif-hooks")]
+pub mod verif;
 
 // Test helpers (socket-free connection builders + tokio clock seam) - available
 // when the test-internals feature is enabled so the parent crate can drive core
